@@ -2,7 +2,7 @@
 """E2 program enumerator: generates ALL operator-expression trees with at most k operator nodes over
 
     leaf  ::= I | X<1> | X<2> | Dx<1> | Dx<2> | V             (V = SplineOperator, factor chosen at run time)
-    unary ::= -A | c*A | A*c | A/c | A+c | c+A | A-c | c-A      (c of type T or of type int)
+    unary ::= -A | c*A | A*c | A/c | A+c | c+A | A-c | c-A      (c of the scalar type T, of type int or of type size_t)
     bin   ::= A*B | A+B | A-B
 
 and emits, from the same Python object, the C++ expression (built from temporaries, as every use in the
@@ -13,10 +13,11 @@ usage: gen_exprs.py <outdir> <mode> <ntus>     mode: k1 | k2 | red3 | fixed
 import sys, os, itertools, hashlib
 
 LEAVES = ['I', 'X1', 'X2', 'D1', 'D2', 'V']
-UN = ['neg'] + [f + ty for f in ['cmul', 'mulc', 'divc', 'addc', 'cadd', 'subc', 'csub'] for ty in 'Ti']
+UN = ['neg'] + [f + ty for f in ['cmul', 'mulc', 'divc', 'addc', 'cadd', 'subc', 'csub'] for ty in 'Tiu']
 BIN = ['prod', 'sum', 'diff']
 TS = [(2, 1), (1, 3), (-5, 7), (3, 2)]
 IS = [2, -1, 3, -2]
+US = [3, 2, 5, 7]   # scalars of an unsigned type (size_t)
 
 
 def trees(k, leaves=LEAVES, un=UN, bins=BIN, memo=None):
@@ -47,6 +48,9 @@ class Em:
         if ty == 'T':
             n, d = TS[i % len(TS)]
             return 'C.t(%d, %d)' % (n, d), 'mq(%d, %d)' % (n, d), '%d/%d' % (n, d) if d != 1 else str(n)
+        if ty == 'u':
+            v = US[i % len(US)]
+            return 'static_cast<size_t>(%d)' % v, 'mq(%d)' % v, '%du' % v
         v = IS[i % len(IS)]
         return ('(%d)' % v) if v < 0 else str(v), 'mq(%d)' % v, '%di' % v
 
@@ -110,7 +114,7 @@ def select(mode):
     if mode == 'k2':
         return trees(2)
     if mode == 'red3':
-        un = ['neg', 'cmuli', 'divci', 'divcT', 'subcT', 'csubi']
+        un = ['neg', 'cmuli', 'divci', 'divcT', 'subcT', 'csubi', 'subcu']
         return trees(3, ['X1', 'D1', 'V'], un, BIN)
     if mode == 'fixed':
         return FIXED
